@@ -49,6 +49,10 @@
 (*             nothing does not re-push from the consumed reader            *)
 (*   FixTag    an unchanged image is still pushed when the target names a   *)
 (*             new tag in the same repository                               *)
+(*   FixClose  the layer reader is closed once (today: a second, deferred   *)
+(*             Close re-runs the stream steps' close functions; with an OCI *)
+(*             layout source that second Close fails half way and leaves    *)
+(*             the digest of an inner digest step in newDesc)               *)
 (***************************************************************************)
 EXTENDS Integers, Sequences, SequencesExt, FiniteSets, TLC
 
@@ -56,11 +60,12 @@ CONSTANTS Images,    \* source images: [n, hist, shape, fam, comp, data, refs]
           Options,   \* option records [k, a, v, i] a program is built from
           MaxProg,   \* maximal program length
           Places,    \* subset of {"same-digest", "same-tag", "same-replace", "cross"}
-          FixData, FixWriter, FixAdded, FixTag,
+          SrcKinds,  \* subset of {"reg", "dir"}: the source is a registry or an OCI layout
+          FixData, FixWriter, FixAdded, FixTag, FixClose,
           Fine       \* TRUE: one action per iteration of dagPut's loops
 
-VARIABLES img, place, prog, pc, kids, topm, st, w, err
-vars == <<img, place, prog, pc, kids, topm, st, w, err>>
+VARIABLES img, place, src, want, prog, pc, kids, topm, st, w, err
+vars == <<img, place, src, want, prog, pc, kids, topm, st, w, err>>
 
 ----------------------------------------------------------------------------
 (* sequences *)
@@ -104,6 +109,8 @@ Child(im, p) ==
    D |-> [i \in 1..im.n |-> Diff(LayerId("L", i), 0)],
    H |-> HistOf(im.hist, "L", 0, 0),
    dls |-> [i \in 1..im.n |-> DagLayer("unchanged", SrcTok(im, "L", i), NoDesc, NoDiff, FALSE)],
+   ddata |-> im.data,          \* the manifest's own descriptor (from the index entry) carries inline data
+   annos |-> {},               \* annotation groups added by this run: "l2a", "x", "base" (for WithAnnotationPromoteCommon)
    cdata |-> (IF im.data THEN "right" ELSE "none"),    \* inline data of the config descriptor
    ldata |-> [i \in 1..im.n |-> IF im.data /\ i = 1 THEN "right" ELSE "none"],
    cfgalg |-> "sha256", malg |-> "sha256", pushed |-> FALSE, cfgpushed |-> FALSE]
@@ -138,7 +145,7 @@ ChgM(o, m) ==
                           [] o.a = "keep.anno" -> img.fam = "docker"                \* already set on OCI manifests
                           [] OTHER -> TRUE
     [] o.k = "AnnotationBase" -> TRUE
-    [] o.k = "AnnotationPromote" -> IsList(m) /\ img.fam = "oci"                    \* common.anno is pulled up
+    [] o.k = "AnnotationPromote" -> IsList(m) /\ img.fam = "oci"                    \* common.anno is pulled up (TopStep refines)
     [] o.k = "LabelToAnnotation" -> ~IsList(m)
     [] o.k \in {"ManifestDigest", "DigestAlgo"} -> o.a # "sha256"
     [] o.k = "ToOCI" -> img.fam = "docker"
@@ -187,7 +194,10 @@ NoopProg == \A j \in 1..Len(prog) : StaticNoop(prog[j])
 
 ----------------------------------------------------------------------------
 (* manifest phase: dagWalkManifests runs every manifest step on the children first, then on the top *)
-Mark(ch) == IF ch.mod = "unchanged" THEN [ch EXCEPT !.mod = "replaced"] ELSE ch
+\* SetOrig / SetAnnotation / manifest.New(WithOrig) give the manifest a fresh descriptor: inline data is gone
+Mark(ch) == [ch EXCEPT !.mod = IF @ = "unchanged" THEN "replaced" ELSE @, !.ddata = FALSE]
+\* WithManifestDigestAlgo re-creates the manifest with its old descriptor (manifest.WithDesc): inline data stays
+MarkKeep(ch) == [ch EXCEPT !.mod = IF @ = "unchanged" THEN "replaced" ELSE @]
 Fail(ch, why) == [ch EXCEPT !.fail = why]
 Failed(ch) == ch.fail # ""
 
@@ -226,6 +236,8 @@ Rebase(ch) ==
                           !.H = <<HL("N1"), HE("a1"), HL("N2")>> \o SubSeq(ch.H, oh + 1, Len(ch.H)),
                           !.cfgmod = TRUE])
 
+AnnoGroup(o) == CASE o.k = "LabelToAnnotation" -> {"l2a"} [] o.k = "AnnotationBase" -> {"base"}
+                  [] o.k = "Annotation" /\ o.a = "[*]x" -> {"x"} [] OTHER -> {}
 \* one manifest step on one image manifest (not a list)
 MStep(ch, o) ==
   IF Failed(ch) THEN ch
@@ -245,12 +257,26 @@ MStep(ch, o) ==
                  ELSE DelAll(ch, [j \in 1..Cardinality(hit) |-> SetToSortedSeq(hit)[j] - 1])
          [] o.k = "Rebase" -> IF ch.mod = "deleted" THEN ch ELSE Rebase(ch)
          [] o.k \in {"ManifestDigest", "DigestAlgo"} ->
-              IF ch.malg = o.a THEN ch ELSE Mark([ch EXCEPT !.malg = o.a])
-         [] OTHER -> IF ChgM(o, ch.plat) THEN Mark(ch) ELSE ch
+              IF ch.malg = o.a THEN ch ELSE MarkKeep([ch EXCEPT !.malg = o.a])
+         [] OTHER -> IF ChgM(o, ch.plat)
+                     THEN Mark([ch EXCEPT !.annos = @ \cup AnnoGroup(o)])
+                     ELSE ch
 
-TopStep(t, o) ==
-  IF o.k \in {"ManifestDigest", "DigestAlgo"} THEN (IF t.malg = o.a THEN t ELSE [t EXCEPT !.mod = "replaced", !.malg = o.a])
-  ELSE IF ChgM(o, "top") THEN [t EXCEPT !.mod = "replaced"] ELSE t
+\* steps on the index itself (after all children).  WithAnnotationPromoteCommon hands an OCI index to SetOrig,
+\* which a Docker manifest list refuses.
+TopStep(ks, t, o) ==
+  IF t.fail # "" THEN t
+  ELSE CASE o.k \in {"ManifestDigest", "DigestAlgo"} -> (IF t.malg = o.a THEN t ELSE [t EXCEPT !.mod = "replaced", !.malg = o.a])
+         [] o.k = "AnnotationPromote" ->
+              \* annotations every child carries and the index does not have yet
+              LET common == {g \in {"l2a", "x", "base"} : \A c \in 1..Len(ks) : g \in ks[c].annos}
+                  new == (common \ t.annos) \cup (IF img.fam = "oci" /\ "promoted" \notin t.annos THEN {"promoted"} ELSE {})
+              IN IF new = {} THEN t
+                 ELSE IF t.fam = "docker" THEN [t EXCEPT !.fail = "unsupported media type"]
+                 ELSE [t EXCEPT !.mod = "replaced", !.annos = @ \cup new]
+         [] o.k = "ToOCI" -> IF t.fam = "docker" THEN [t EXCEPT !.mod = "replaced", !.fam = "oci"] ELSE t
+         [] o.k = "ToDocker" -> IF t.fam = "oci" THEN [t EXCEPT !.mod = "replaced", !.fam = "docker"] ELSE t
+         [] OTHER -> IF ChgM(o, "top") THEN [t EXCEPT !.mod = "replaced", !.annos = @ \cup AnnoGroup(o)] ELSE t
 
 ----------------------------------------------------------------------------
 (* config phase *)
@@ -263,7 +289,8 @@ CStep(ch, o) ==
 
 ----------------------------------------------------------------------------
 (* layer phase: the closure in Apply, for one dagLayer.  rdr: "nil" | "fresh" | "wrapped" (a stream step    *)
-(* finalises newDesc.Digest when it is closed) | "tmp" (the re-tarred temp file) | "used" | "usedwrapped"    *)
+(* finalises newDesc.Digest when it is closed; "wrappedD": the outermost is a digest step, "wrappedDC": a      *)
+(* digest step sits inside a compression step) | "tmp" (the re-tarred temp file) | "used" | "usedwrapped"     *)
 CurMT(dl) == IF dl.nd.has THEN dl.nd.t.mt ELSE dl.desc.mt
 CurAlg(dl) == IF dl.nd.dig THEN dl.nd.t.alg ELSE dl.desc.alg
 Replaced(dl) == IF dl.mod = "unchanged" THEN "replaced" ELSE dl.mod
@@ -277,7 +304,8 @@ LStep(x, o) ==
        ELSE LET base == IF dl.nd.has THEN dl.nd.t ELSE dl.desc
             IN <<[dl EXCEPT !.mod = Replaced(dl),
                             !.nd = NewDesc(TRUE, TRUE, [base EXCEPT !.mt = o.a, !.wc = o.a]),
-                            !.uc = Diff(base.id, base.cv)], "wrapped">>
+                            !.uc = Diff(base.id, base.cv)],
+              IF rdr \in {"wrappedD", "wrappedDC"} THEN "wrappedDC" ELSE "wrapped">>    \* a digest step inside a compression step
   ELSE \* LayerDigest / DigestAlgo: newDesc is initialised from desc only for an unchanged layer
        IF CurAlg(dl) = o.a THEN x
        ELSE LET base == IF dl.mod = "unchanged" THEN dl.desc
@@ -285,7 +313,7 @@ LStep(x, o) ==
                 has == dl.mod = "unchanged" \/ dl.nd.has
             IN <<[dl EXCEPT !.mod = Replaced(dl),
                             !.nd = NewDesc(has, TRUE, [base EXCEPT !.alg = o.a]),
-                            !.uc = Diff(base.id, base.cv)], "wrapped">>
+                            !.uc = Diff(base.id, base.cv)], "wrappedD">>
 
 LayerWalk(dl, sL, sF) ==
   IF dl.mod = "deleted" THEN [dl |-> dl, err |-> ""]
@@ -303,9 +331,10 @@ LayerWalk(dl, sL, sF) ==
       \* a deleted file is skipped by archive/tar with Seek when the reader is the blob reader itself (uncompressed layer,
       \* no stream step in front): BlobReader.Seek refuses ("unable to seek to arbitrary position")
       seekErr == doF /\ effs \cap {"del", "all"} # {} /\ cur.mt = "none" /\ rdrA \in {"nil", "fresh"}
+      Wrapped(r) == r \in {"wrapped", "wrappedD", "wrappedDC"}
       wcomp == IF FixWriter THEN cur.mt ELSE dl.desc.mt
       rew == [cur EXCEPT !.cv = @ + 1, !.wc = wcomp]
-      useTmp == changed \/ (FixAdded /\ rdrA = "wrapped")      \* repaired: a pending stream step also pushes the temp file
+      useTmp == changed \/ (FixAdded /\ Wrapped(rdrA))      \* repaired: a pending stream step also pushes the temp file
       dlB == IF ~doF THEN dlA
              ELSE IF empty THEN [dlA EXCEPT !.mod = "deleted"]
              ELSE IF useTmp THEN [dlA EXCEPT !.mod = Replaced(dlA), !.nd = NewDesc(cur.mt # "", TRUE, IF changed THEN rew ELSE [cur EXCEPT !.wc = wcomp]),
@@ -314,7 +343,7 @@ LayerWalk(dl, sL, sF) ==
       rdrB == IF ~doF \/ empty THEN rdrA
               ELSE IF useTmp THEN "tmp"
               ELSE IF FixAdded THEN "nil"                                            \* repaired: nothing to push, reader closed
-              ELSE IF rdrA = "wrapped" THEN "usedwrapped" ELSE "used"
+              ELSE IF Wrapped(rdrA) THEN "usedwrapped" ELSE "used"
       push == dlB.mod \in {"added", "replaced"} /\ rdrB # "nil"
   IN IF (sL # <<>> \/ doF) /\ ~srcOK THEN [dl |-> dl, err |-> "failed to get blob"]
      ELSE IF seekErr THEN [dl |-> dl, err |-> "unable to seek to arbitrary position"]
@@ -324,6 +353,8 @@ LayerWalk(dl, sL, sF) ==
                  [dl |-> [dlB EXCEPT !.nd = NewDesc(FALSE, TRUE, [dlB.desc EXCEPT !.mt = "", !.ok = FALSE])], err |-> ""]
             [] rdrB = "fresh" ->       \* an added layer re-pushed unchanged: newDesc gets digest and size only
                  [dl |-> [dlB EXCEPT !.nd = IF dlB.nd.has THEN dlB.nd ELSE NewDesc(FALSE, TRUE, [dlB.desc EXCEPT !.mt = ""])], err |-> ""]
+            [] rdrB = "wrappedDC" /\ src = "dir" /\ ~FixClose ->   \* the deferred second Close leaves the inner step's digest
+                 [dl |-> [dlB EXCEPT !.nd.t.ok = FALSE], err |-> ""]
             [] OTHER -> [dl |-> dlB, err |-> ""]
 
 \* the descriptor dagPut writes for a layer
@@ -395,6 +426,7 @@ PutChild(x) ==
       changed == x.changed \/ cfgmod \/ cdata # ch.cdata
       mod == IF changed /\ ch.mod = "unchanged" THEN "replaced" ELSE ch.mod
   IN [ch EXCEPT !.L = x.L, !.D = x.D, !.H = x.H, !.ldata = x.ld, !.cfgmod = cfgmod, !.cdata = cdata, !.mod = mod,
+                !.ddata = ch.ddata /\ ~changed,
                 !.cfgpushed = cfgmod \/ ~Same,
                 !.pushed = mod \in {"replaced", "added"} \/ (mod = "unchanged" /\ ~Same)
                            \/ (FixTag /\ img.shape = "image" /\ place = "same-tag")]
@@ -402,9 +434,9 @@ PutChild(x) ==
 ----------------------------------------------------------------------------
 (* dagPut, index branch and the top level *)
 EntryData(c) == \* the data field dagPut puts into the index entry of child c
-  LET had == img.data /\ kids[c].mod = "unchanged"      \* the descriptor of a rewritten child is a fresh one
-      want == DataWanted(had)
-  IN IF ~want THEN "none" ELSE IF FixData THEN "right" ELSE "parent"
+  LET had == kids[c].ddata                                \* the descriptor of a re-serialised child is a fresh one
+      inl == DataWanted(had)
+  IN IF ~inl THEN "none" ELSE IF FixData THEN "right" ELSE "parent"
 PutTop ==
   LET ents == [c \in 1..Len(kids) |-> [data |-> EntryData(c),
                                        fresh |-> kids[c].mod = "replaced" \/ EntryData(c) # (IF img.data THEN "right" ELSE "none")]]
@@ -419,25 +451,27 @@ PutTop ==
 Init ==
   /\ img \in Images
   /\ place \in Places
+  /\ src \in SrcKinds
+  /\ want \in 0..MaxProg          \* number of options Apply is called with
   /\ prog = <<>>
   /\ pc = "opts"
   /\ kids = [c \in 1..Len(Plats(img)) |-> Child(img, Plats(img)[c])]
-  /\ topm = [mod |-> "unchanged", malg |-> "sha256", ents |-> <<>>, pushed |-> FALSE, refs |-> "none"]
+  /\ topm = [mod |-> "unchanged", fail |-> "", fam |-> img.fam, annos |-> {}, malg |-> "sha256", ents |-> <<>>, pushed |-> FALSE, refs |-> "none"]
   /\ st = [sM |-> <<>>, sC |-> <<>>, sL |-> <<>>, sF |-> <<>>]
   /\ w = [c |-> 0, pass |-> 3, i |-> 0, ic |-> 0, L |-> <<>>, D |-> <<>>, H |-> <<>>, ld |-> <<>>, changed |-> FALSE, err |-> ""]
   /\ err = ""
 
 ChooseOpt(o) ==
-  /\ pc = "opts" /\ Len(prog) < MaxProg
+  /\ pc = "opts" /\ Len(prog) < want
   /\ prog' = Append(prog, o)
-  /\ UNCHANGED <<img, place, pc, kids, topm, st, w, err>>
+  /\ UNCHANGED <<img, place, src, want, pc, kids, topm, st, w, err>>
 
 \* for _, opt := range opts { opt(&dc, dm) }
 LoadOptions ==
-  /\ pc = "opts"
+  /\ pc = "opts" /\ Len(prog) = want
   /\ st' = [sM |-> Steps(RegM), sC |-> Steps(RegC), sL |-> Steps(RegL), sF |-> Steps(RegF)]
   /\ pc' = "manifest"
-  /\ UNCHANGED <<img, place, prog, kids, topm, w, err>>
+  /\ UNCHANGED <<img, place, src, want, prog, kids, topm, w, err>>
 
 FirstErr(ks) == LET bad == {c \in 1..Len(ks) : Failed(ks[c])}
                 IN IF bad = {} THEN "" ELSE LET c == CHOOSE c \in bad : \A q \in bad : c <= q
@@ -446,18 +480,20 @@ ManifestPhase ==
   /\ pc = "manifest"
   /\ LET ks == [c \in 1..Len(kids) |-> FoldL(MStep, kids[c], st.sM)]
          e == FirstErr(ks)
+         t == IF img.shape = "index" THEN FoldL(LAMBDA t, o : TopStep(ks, t, o), topm, st.sM) ELSE topm
      IN IF e # "" THEN err' = e /\ pc' = "done" /\ UNCHANGED <<kids, topm>>
+        ELSE IF t.fail # "" THEN err' = t.fail /\ pc' = "done" /\ UNCHANGED <<kids, topm>>
         ELSE /\ kids' = ks
-             /\ topm' = (IF img.shape = "index" THEN FoldL(TopStep, topm, st.sM) ELSE topm)
+             /\ topm' = t
              /\ pc' = "config" /\ err' = ""
-  /\ UNCHANGED <<img, place, prog, st, w>>
+  /\ UNCHANGED <<img, place, src, want, prog, st, w>>
 
 \* the label readers (WithConfigTimestamp / WithLayerTimestamp FromLabel) never fail on catalogue images
 ConfigPhase ==
   /\ pc = "config"
   /\ kids' = [c \in 1..Len(kids) |-> FoldL(CStep, kids[c], st.sC)]
   /\ pc' = "layers"
-  /\ UNCHANGED <<img, place, prog, topm, st, w, err>>
+  /\ UNCHANGED <<img, place, src, want, prog, topm, st, w, err>>
 
 \* dagWalkLayers: children in order, layers in order; the first error aborts Apply
 WalkNeeded == st.sL # <<>> \/ st.sF # <<>> \/ ~Same \/ \E c \in 1..Len(kids) : \E j \in 1..Len(kids[c].dls) : kids[c].dls[j].base
@@ -471,7 +507,7 @@ LayerPhase ==
              IN err' = res[f[1]][f[2]].err /\ pc' = "done" /\ UNCHANGED <<kids, w>>
         ELSE /\ kids' = [c \in 1..Len(kids) |-> [kids[c] EXCEPT !.dls = [j \in 1..Len(res[c]) |-> res[c][j].dl]]]
              /\ w' = StartPut(1) /\ pc' = "put" /\ err' = ""
-  /\ UNCHANGED <<img, place, prog, topm, st>>
+  /\ UNCHANGED <<img, place, src, want, prog, topm, st>>
 
 \* dagPut on child w.c: one loop iteration (Fine) or the whole child at once
 PutStep ==
@@ -482,7 +518,7 @@ PutStep ==
         ELSE /\ kids' = [kids EXCEPT ![x.c] = PutChild(x)]
              /\ IF x.c < Len(kids) THEN w' = StartPut(x.c + 1) /\ pc' = "put" ELSE w' = x /\ pc' = "top"
              /\ err' = ""
-  /\ UNCHANGED <<img, place, prog, topm, st>>
+  /\ UNCHANGED <<img, place, src, want, prog, topm, st>>
 
 TopPhase ==
   /\ pc = "top"
@@ -490,7 +526,7 @@ TopPhase ==
               ELSE [topm EXCEPT !.mod = kids[1].mod, !.pushed = kids[1].pushed,
                                 !.refs = IF img.refs /\ Same /\ kids[1].mod = "replaced" THEN "rewritten" ELSE IF img.refs /\ Same THEN "kept" ELSE "none"])
   /\ pc' = "done"
-  /\ UNCHANGED <<img, place, prog, kids, st, w, err>>
+  /\ UNCHANGED <<img, place, src, want, prog, kids, st, w, err>>
 
 Next == \/ \E o \in Options : ChooseOpt(o)
         \/ LoadOptions \/ ManifestPhase \/ ConfigPhase \/ LayerPhase \/ PutStep \/ TopPhase
